@@ -541,7 +541,7 @@ func init() {
 	core.Register(&core.Prop{
 		ID:        "C15",
 		Technique: "call-tree monitor: the real JSONOutput driven with generated and exhaustively enumerated well-nested call sequences; output parsed by encoding/json (UseNumber) and compared with the call tree; Reset/reuse histories compared with fresh outputters",
-		Rule: "cases 0-4 enumerate ALL call trees; arrays of times on neighbouring days around year 0/1, 1970, leap days and 9999 in UTC and +14h/-12h zones with 1..5 calls over {Int64, String, object, array}; the other cases are Reset/reuse histories of 1-20 random trees (depth <= 8, width <= 12; now and then a chain of 20..300 nested containers with siblings before and after the nested child at every level, every adjacency of scalar/object/array/empty container) whose strings and field names cover every byte value in first/middle/last position, all pairs of JSON-significant bytes, U+2028/2029, multi-byte and invalid UTF-8, int64/uint64 limits, finite float64/float32 incl. -0, denormals and the 1e21/1e-7 format switches, times, Raw(null/number). " +
+		Rule: "cases 0-4 enumerate ALL call trees with 1..5 calls over {Int64, String, object, array}; the other cases are Reset/reuse histories of 1-20 random trees (among them arrays of times on neighbouring days around year 0/1, 1970, leap days and 9999 in UTC and +14h/-12h zones; depth <= 8, width <= 12; now and then a chain of 20..300 nested containers with siblings before and after the nested child at every level, every adjacency of scalar/object/array/empty container) whose strings and field names cover every byte value in first/middle/last position, all pairs of JSON-significant bytes, U+2028/2029, multi-byte and invalid UTF-8, int64/uint64 limits, finite float64/float32 incl. -0, denormals and the 1e21/1e-7 format switches, times, Raw(null/number). " +
 			"Invalid UTF-8 is compared after the replacement encoding/json performs. distinct = distinct call trees with more than one call",
 		Assume:     []string{"encoding/json as the independent parser"},
 		Exhaustive: []string{"all call trees with <= 5 calls over {Int64, String, object, array}"},
